@@ -130,12 +130,53 @@ def cell_limits(model, grid):
     return {nm: [hexf(getattr(model, nm).centre.lower_limit), hexf(getattr(model, nm).centre.upper_limit)] for nm in grid}
 
 
-def run_case(c):
+def grid_object(c, shared, search=None):
+    """the GridSearch a case runs on: a fresh one, or -- inside a history -- THE shared object, whose public
+    attributes are set to this use's values the way a user refining a grid would set them"""
+    if shared is None:
+        return GridSearch(search=search or af.m.MockSearch(name="x"), number_of_steps=c["n"],
+                          number_of_cores=c.get("cores", 1), result_output_interval=c.get("interval", 100))
+    gs = shared["gs"]
+    gs.number_of_steps = c["n"]
+    gs.number_of_cores = c.get("cores", 1)
+    return gs
+
+
+def model_for(c, shared):
+    """the model of a case; inside a history a step with `reuse_model` keeps the previous step's Collection and
+    only REPLACES the centre priors whose limits changed (same model object, new limits)"""
+    pri = [(nm, unhex(lo), unhex(hi)) for nm, lo, hi in c["priors"]]
+    extras = c.get("extras") or {}
+    key = json.dumps([[p[0] for p in pri], extras], sort_keys=True)
+    aliased = any(v.startswith("alias:") for e in extras.values() for v in e.values())
+    if shared is not None and c.get("reuse_model") and not aliased and shared.get("model_key") == key:
+        model, objs = shared["model"], shared["objs"]
+        for nm, lo, hi in pri:
+            if (objs[nm].lower_limit, objs[nm].upper_limit) != (lo, hi):
+                objs[nm] = af.UniformPrior(lower_limit=lo, upper_limit=hi)
+                getattr(model, nm).centre = objs[nm]
+    else:
+        model, objs = build_model(pri, extras)
+    if shared is not None:
+        shared["model"], shared["objs"], shared["model_key"] = model, objs, key
+    return model, objs, pri
+
+
+def sens_object(shared):
+    """a bare Sensitivity for the lattice / unit-cell observables; inside a history THE shared object"""
+    if shared is None:
+        return object.__new__(s.Sensitivity)
+    return shared["sens"]
+
+
+def run_case(c, shared=None):
     kind = c["kind"]
+    if kind == "history":
+        return history_run(c)
     if kind == "lists":
         n, d, centre = c["n"], c["d"], c["centre"]
         if c.get("via") == "gridsearch":
-            gs = GridSearch(search=af.m.MockSearch(name="x"), number_of_steps=n)
+            gs = grid_object(c, shared)
             lists = gs.make_lists([None] * d)
         else:
             lists = make_lists(d, step_size=1 / n, centre_steps=centre)
@@ -146,7 +187,7 @@ def run_case(c):
     if kind == "cells":
         n = c["n"]
         priors = [af.UniformPrior(lower_limit=unhex(lo), upper_limit=unhex(hi)) for lo, hi in c["priors"]]
-        gs = GridSearch(search=af.m.MockSearch(name="x"), number_of_steps=n)
+        gs = grid_object(c, shared)
         out = []
         for values in gs.make_lists(priors):
             args = gs.make_arguments(values, priors)
@@ -155,7 +196,7 @@ def run_case(c):
         return {"cells": out, "physical": hexrows(phys)}
     if kind == "infinite":
         # a grid prior without definite limits must be refused (make_arguments raises PriorException)
-        gs = GridSearch(search=af.m.MockSearch(name="x"), number_of_steps=c["n"])
+        gs = grid_object(c, shared)
         lo, hi = unhex(c["lo"]), unhex(c["hi"])
         if c["prior"] == "gauss":
             prior = af.GaussianPrior(mean=0.0, sigma=1.0, lower_limit=lo, upper_limit=hi)
@@ -170,8 +211,8 @@ def run_case(c):
             return {"raised": "PriorException"}
     if kind == "mappers":
         n = c["n"]
-        model, objs = build_model([(nm, unhex(lo), unhex(hi)) for nm, lo, hi in c["priors"]], c.get("extras"))
-        gs = GridSearch(search=af.m.MockSearch(name="x"), number_of_steps=n)
+        model, objs, _ = model_for(c, shared)
+        gs = grid_object(c, shared)
         grid = [objs[nm] for nm in c["grid"]]
         mappers = list(gs.model_mappers(model, grid))
         names = [p[0] for p in c["priors"]]
@@ -179,7 +220,9 @@ def run_case(c):
                 "prior_count": [mp.prior_count for mp in mappers], "original_prior_count": model.prior_count,
                 "sorted_names": [nm for p in model.sort_priors_alphabetically(set(grid)) for nm in c["grid"] if objs[nm] is p]}
     if kind == "fit":
-        return fit_run(c)
+        return fit_run(c, shared)
+    if kind == "jobs":
+        return jobs_run(c, shared)
     if kind == "result":
         lists = [[unhex(x) for x in r] for r in c["lower"]]
         r = GridSearchResult(samples=None, lower_limits_lists=lists, grid_priors=[])
@@ -201,7 +244,7 @@ def run_case(c):
         return {"summaries": out, "results": res}
     if kind == "sens_lists":
         ns = c["ns"]
-        obj = object.__new__(s.Sensitivity)
+        obj = sens_object(shared)
         obj.number_of_steps = tuple(ns) if c["as_tuple"] else ns[0]
         obj.perturb_model = af.Collection(*[af.Model(af.Gaussian, centre=af.UniformPrior(0.0, 1.0), normalization=1.0, sigma=1.0)
                                             for _ in ns])
@@ -216,9 +259,9 @@ def run_case(c):
             results = sorted(results)
         return {"numbers": [r.number for r in results]}
     if kind == "sens_run":
-        return sens_run(c)
+        return sens_run(c, shared)
     if kind == "sens_cells":
-        return sens_cells(c)
+        return sens_cells(c, shared)
     raise ValueError(kind)
 
 
@@ -236,18 +279,32 @@ def attribute_grid(res, path):
         return None
 
 
-def fit_run(c):
+def jobs_run(c, shared=None):
+    """GridSearch.make_jobs called directly (the models the searches would be handed), paths prepared as fit() does"""
+    n = c["n"]
+    model, objs, pri = model_for(c, shared)
+    names = sorted(c["grid"])
+    gs = grid_object(c, shared, MockSearch(name="jb%d" % c["idx"]))
+    grid = [objs[nm] for nm in c["grid"]]
+    gs.paths.model = model
+    gs.paths.search = gs
+    jobs = gs.make_jobs(model, Analysis([p for nm in names for p in pri if p[0] == nm], n), grid)
+    return {"job_index": [[j.index, j.number] for j in jobs],
+            "job_cells": [cell_limits(j.model, c["grid"]) for j in jobs],
+            "physical": hexrows(gs.make_physical_lists(model.sort_priors_alphabetically(set(grid)))),
+            "sorted_names": [nm for p in model.sort_priors_alphabetically(set(grid)) for nm in c["grid"] if objs[nm] is p]}
+
+
+def fit_run(c, shared=None):
     """A real grid search through the public GridSearch.fit() (or _fit) with the completion order steered by a
     permuting job runner (number_of_cores == 1) or left to the real Process pool (number_of_cores > 1)."""
     import numpy as np
     n = c["n"]
-    pri = [(nm, unhex(lo), unhex(hi)) for nm, lo, hi in c["priors"]]
-    model, objs = build_model(pri, c.get("extras"))
+    model, objs, pri = model_for(c, shared)
     names = sorted(c["grid"])
     analysis = Analysis([p for nm in names for p in pri if p[0] == nm], n)
     cores = c.get("cores", 1)
-    search = MockSearch(name="gs%d" % c["idx"])
-    gs = GridSearch(search=search, number_of_steps=n, number_of_cores=cores, result_output_interval=c.get("interval", 100))
+    gs = grid_object(c, shared, MockSearch(name="gs%d" % c["idx"]))
     grid = [objs[nm] for nm in c["grid"]]
     builders, log, progress = [], {}, []
 
@@ -373,9 +430,27 @@ def make_sensitivity(c, name):
     )
 
 
-def sens_run(c):
+def perturb_model_of(c):
+    kw = {"centre": 1.0, "normalization": 1.0, "sigma": 1.0}
+    for nm, lo, hi in c["priors"]:
+        kw[nm] = af.UniformPrior(lower_limit=unhex(lo), upper_limit=unhex(hi))
+    return af.Model(af.Gaussian, **kw)
+
+
+def sens_run(c, shared=None):
     """Real Sensitivity.run() with the completion order steered by a permuting job runner (or real Process)."""
-    sens = make_sensitivity(c, "sens%d" % c["idx"])
+    if shared is None:
+        sens = make_sensitivity(c, "sens%d" % c["idx"])
+    else:
+        # THE shared Sensitivity object: public attributes set to this use's values
+        sens = shared["sens"]
+        weights = [(nm, unhex(w)) for nm, w in c["weights"]]
+        ls = c.get("limit_scale", 1)
+        sens.perturb_model = perturb_model_of(c)
+        sens.number_of_steps = tuple(c["ns"]) if c["as_tuple"] else c["ns"][0]
+        sens.number_of_cores = c.get("cores", 1)
+        sens.limit_scale = unhex(ls) if isinstance(ls, str) else ls
+        sens.base_fit_cls, sens.perturb_fit_cls = _BaseFit(weights), _PerturbFit(weights)
     names = [p[0] for p in c["priors"]]
     log = {}
     old = s.Sequential
@@ -424,13 +499,44 @@ class _UnitModel:
         return limits
 
 
-def sens_cells(c):
+def sens_cells(c, shared=None):
     ns = c["ns"]
-    obj = object.__new__(s.Sensitivity)
+    obj = sens_object(shared)
     obj.number_of_steps = tuple(ns) if c["as_tuple"] else ns[0]
     obj.perturb_model = _UnitModel(len(ns))
     obj.limit_scale = unhex(c["limit_scale"]) if isinstance(c["limit_scale"], str) else c["limit_scale"]
     return {"limits": [[[hexf(lo), hexf(hi)] for lo, hi in lim] for lim in obj._perturb_models]}
+
+
+HIST_SENS = {"kind": "sens_run", "ns": [1], "as_tuple": False, "priors": [["centre", "0x0p+0", "0x1p+0"]],
+             "weights": [[nm, "0x1p+0"] for nm in ATTRS], "limit_scale": 1}
+
+
+def history_run(c):
+    """ONE GridSearch (or Sensitivity) object used for every step of the history, its public attributes changed
+    between uses; every step is also run on a fresh object. Returns both answers, step by step."""
+    if c["target"] == "grid":
+        first = c["steps"][0]
+        shared = {"gs": GridSearch(search=MockSearch(name="hist%d" % c["idx"]), number_of_steps=first["n"],
+                                   number_of_cores=first.get("cores", 1), result_output_interval=c.get("interval", 100))}
+    else:
+        shared = {"sens": make_sensitivity(HIST_SENS, "hsens%d" % c["idx"])}
+    used, fresh = [], []
+    for j, step in enumerate(c["steps"]):
+        for out, sh, off in ((used, shared, 0), (fresh, None, 1)):
+            st = dict(step)
+            st["idx"] = 1000 * (c["idx"] + 1) + 2 * j + off
+            try:
+                out.append({"ok": run_case(st, sh)})
+            except BaseException as e:  # noqa
+                out.append({"exc": exc_name(e), "msg": str(e)[:300]})
+        # the state under test is the OBJECT's: output written by earlier uses is removed, so that no cell is
+        # resumed from a folder an earlier use completed (resumption of finished fits is not C16's subject)
+        import shutil
+        root = str(conf.instance.output_path)
+        for x in os.listdir(root):
+            shutil.rmtree(os.path.join(root, x), ignore_errors=True)
+    return {"steps": used, "fresh": fresh}
 
 
 def main():
